@@ -8,7 +8,7 @@ RULE = ("state = canonical key of the real exchange reached by an operation hist
         "invalid requests) from every state up to the depth; the lifecycle / listing / event-stream oracle runs on every transition. Distinct = "
         "distinct states; non-trivial = reached by a transition that produced order events, a rejection or a loan.")
 ASSUMPTIONS = [
-    "amounts 1..3 units, price grid {30,90,100,110,300}, volumes {0,10,40,41.7,1e5}; configurations of "
+    "amounts 1..5 units (x10 in K29), price grid {30,33.37,90,100,110,300}, volumes giving 0/1/2.5/2.75/3/4/10 units of liquidity; configurations of "
     "checks/_exch_common.py (fee x liquidity x lending x precision x initial balances x 1-2 pairs)",
     "strategy actions are issued after at least one bar (orders placed before the first event are a separate scenario)",
     "the synchronous driver is validated against the public-API driver on all short histories (conformance scenarios) "
